@@ -11,13 +11,13 @@ DEMOFILE="$PKG/zz_seed_demo_test.go"
 cleanup() { rm -f "$WT/$DEMOFILE"; git -C "$WT" checkout -q -- .; }
 trap cleanup EXIT
 cp "$DEMO" "$DEMOFILE"
-timeout 900 go test -vet=off -count=1 -run "$PAT" "./$PKG/" >/tmp/seedverify.$$.clean 2>&1; rc_clean=$?
+timeout 900 go test ${SEEDVERIFY_FLAGS:-} -vet=off -count=1 -run "$PAT" "./$PKG/" >/tmp/seedverify.$$.clean 2>&1; rc_clean=$?
 git apply "$PATCH" || { echo "APPLY-FAILED"; exit 2; }
 rm -f "$DEMOFILE"
 timeout 900 go build ./... >/tmp/seedverify.$$.build 2>&1; rc_build=$?
 timeout 1500 go test -vet=off -count=1 ./... >/tmp/seedverify.$$.suite 2>&1; rc_suite=$?
 cp "$DEMO" "$DEMOFILE"
-timeout 900 go test -vet=off -count=1 -run "$PAT" "./$PKG/" >/tmp/seedverify.$$.mut 2>&1; rc_mut=$?
+timeout 900 go test ${SEEDVERIFY_FLAGS:-} -vet=off -count=1 -run "$PAT" "./$PKG/" >/tmp/seedverify.$$.mut 2>&1; rc_mut=$?
 echo "demo_on_clean_rc=$rc_clean build_rc=$rc_build suite_rc=$rc_suite demo_on_mutant_rc=$rc_mut"
 if [ $rc_clean -eq 0 ] && [ $rc_build -eq 0 ] && [ $rc_suite -eq 0 ] && [ $rc_mut -ne 0 ]; then echo CONFIRMED; else echo NOT-CONFIRMED; tail -5 /tmp/seedverify.$$.clean /tmp/seedverify.$$.build /tmp/seedverify.$$.suite /tmp/seedverify.$$.mut; fi
 rm -f /tmp/seedverify.$$.*
